@@ -393,7 +393,7 @@ def run(s):
     q = s.tier == 'quick'
     base = tempfile.mkdtemp(prefix='verif-c19-')
     try:
-        n = 240 if q else 8000
+        n = 800 if q else 30000
         for i in range(n):
             if not s.mine(i):
                 continue
@@ -415,7 +415,7 @@ def run(s):
             shutil.rmtree(tmpdir, ignore_errors=True)
         sub = os.path.join(base, 'sub')
         os.makedirs(sub)
-        subprocess_samples(s, sub, 12 if q else 200)
+        subprocess_samples(s, sub, 16 if q else 400)
     finally:
         shutil.rmtree(base, ignore_errors=True)
 
